@@ -44,7 +44,7 @@ type PropSpec struct {
 var commonAssume = []string{
 	"child processes, the kernel and TCP are simulated (fake ProcessSupervisor, in-memory listener); clocks are the synctest bubble clock",
 	"sync.Mutex/RWMutex/Once of the emulator are replaced by scheduler-owned equivalents at build time (overlay), metering.Monotime reads bubble time",
-	"interleavings are decided at external stimuli and at every lock acquisition (in the unlock-yield pass of C07 / C08 at every release too); preemption between two statements with neither in between is not explored",
+	"interleavings are decided at external stimuli and at every lock acquisition (in the unlock-yield pass of C05, C07, C08 and C10 at every release too); preemption between two statements with neither in between is not explored",
 	"a clean batch is evidence over the sampled tapes, not proof",
 }
 
